@@ -18,6 +18,7 @@ class Interp(StmtMixin, ExtMixin, OpsMixin, InterpCore):
     def __init__(self, program, **kw):
         InterpCore.__init__(self, program, **kw)
         self.loop_stack = []
+        self.ext_methods = {}     # (external base class name, method) -> python model f(interp, inst, args, kwargs)
         self.proxy_store = {}
         self.sticky = 0
         self.at_function_tail = True
@@ -292,6 +293,14 @@ class Interp(StmtMixin, ExtMixin, OpsMixin, InterpCore):
     def getattr(self, base, attr, node=None):
         from .symeval_ext import SuperV
         from .model import ClassInfo
+        if isinstance(base, InstV) and attr not in base.attrs and self.ext_methods:
+            from .model import ExternalClass
+            if not any(isinstance(c, ClassInfo) and (attr in c.methods or attr in c.class_attrs) for c in base.ci.mro()):
+                for c in base.ci.mro():
+                    if isinstance(c, ExternalClass):
+                        h = self.ext_methods.get((c.name.split(".")[-1], attr))
+                        if h is not None:
+                            return PyObjV(_ExtBound(h, base)).as_callable()
         if self.is_listlike(base) and attr in ("append", "extend", "sort", "index", "count") and base.ci.lookup(attr) is None:
             return BoundBuiltin(self.hidden_list(base), attr)
         if self.is_proxy(base) and attr not in base.attrs:
@@ -316,6 +325,12 @@ class Interp(StmtMixin, ExtMixin, OpsMixin, InterpCore):
                     if fi.is_property:
                         return self.call_function(FuncV(fi, selfv=inst), [], {}, node)
                     return FuncV(fi, selfv=inst)
+            from .model import ExternalClass
+            for c in mro:
+                if isinstance(c, ExternalClass):
+                    h = self.ext_methods.get((c.name.split(".")[-1], attr))
+                    if h is not None:
+                        return PyObjV(_ExtBound(h, inst)).as_callable()
             if attr == "__init__":
                 return ExtV("builtins.object.__init__")
             self.err(node, "super() has no attribute %s" % attr)
@@ -343,6 +358,13 @@ class Interp(StmtMixin, ExtMixin, OpsMixin, InterpCore):
         return l
 
     def getitem(self, base, idx, node=None):
+        if isinstance(base, InstV) and self.ext_methods and base.ci.lookup("__getitem__") is None:
+            from .model import ExternalClass
+            for c in base.ci.mro():
+                if isinstance(c, ExternalClass):
+                    h = self.ext_methods.get((c.name.split(".")[-1], "__getitem__"))
+                    if h is not None:
+                        return h(self, base, [idx], {})
         if self.is_listlike(base) and base.ci.lookup("__getitem__") is None:
             return OpsMixin.getitem(self, self.hidden_list(base), idx, node)
         return OpsMixin.getitem(self, base, idx, node)
@@ -354,6 +376,8 @@ class Interp(StmtMixin, ExtMixin, OpsMixin, InterpCore):
 
     def x_len(self, args, kwargs, node, env):
         v = args[0]
+        if isinstance(v, PyObjV) and hasattr(v.obj, "length"):
+            return v.obj.length(self)
         if self.is_listlike(v) and v.ci.lookup("__len__") is None:
             return ExtMixin.x_len(self, [self.hidden_list(v)], kwargs, node, env)
         if isinstance(v, InstV) and v.ci.lookup("__len__") is not None:
@@ -405,6 +429,16 @@ class Interp(StmtMixin, ExtMixin, OpsMixin, InterpCore):
     def run(self, fi, args, kwargs=None, selfv=None):
         fv = FuncV(fi, selfv=selfv)
         return self.call_function(fv, args, kwargs or {}, None)
+
+
+class _ExtBound(object):
+    """a method of an external base class, modelled in /verif, bound to an instance"""
+    def __init__(self, fn, inst):
+        self.fn = fn
+        self.inst = inst
+
+    def m___call__(self, I, args, kwargs):
+        return self.fn(I, self.inst, args, kwargs)
 
 
 class RegexModel(object):
